@@ -511,6 +511,66 @@ func init() {
 			def("rollupCalls", c02Events(fd, c02Keep("rolluping.CompareAndSwap", "f.deleteObsoleteFiles", "familyVersion.GetLiveRollupFiles",
 				"GetStoreManager().GetStoreByName", "targetStore.CreateFamily", "targetFamily.doRollupWork", "version.CreateDeleteRollupFile",
 				"f.commitEditLog", "targetFamily.cleanReferenceFiles")))
+			// where and with which interval the DeleteRollupFile records are created: inside the loop over
+			// the target intervals (`for targetInterval, files := range rollupMap`), after that target's
+			// doRollupWork, for the files of THAT target (`range files`), with the loop's own interval
+			var shape []string
+			per := false
+			nCreate, nGood := 0, 0
+			ast.Inspect(fd.Body, func(n ast.Node) bool {
+				outer, ok := n.(*ast.RangeStmt)
+				if !ok || exprName(outer.X) != "rollupMap" {
+					return true
+				}
+				key, val := exprName(outer.Key), exprName(outer.Value)
+				shape = append(shape, "for:"+key+","+val+"=range:rollupMap")
+				workSeen := false
+				var walk func(n ast.Node, fileVar string)
+				walk = func(n ast.Node, fileVar string) {
+					ast.Inspect(n, func(m ast.Node) bool {
+						switch x := m.(type) {
+						case *ast.RangeStmt:
+							if x != outer {
+								shape = append(shape, "for:"+exprName(x.Value)+"=range:"+exprName(x.X))
+								fv := ""
+								if exprName(x.X) == val {
+									fv = exprName(x.Value)
+								}
+								walk(x.Body, fv)
+								shape = append(shape, "endfor")
+								return false
+							}
+						case *ast.CallExpr:
+							nm := exprName(x.Fun)
+							if nm == "targetFamily.doRollupWork" {
+								workSeen = true
+								shape = append(shape, nm)
+							}
+							if nm == "version.CreateDeleteRollupFile" && len(x.Args) == 2 {
+								a0, a1 := exprName(x.Args[0]), exprName(x.Args[1])
+								shape = append(shape, "CreateDeleteRollupFile("+a0+","+a1+")")
+								if workSeen && fileVar != "" && a0 == fileVar && a1 == key {
+									nGood++
+								}
+							}
+						}
+						return true
+					})
+				}
+				walk(outer.Body, "")
+				shape = append(shape, "endfor")
+				return false
+			})
+			ast.Inspect(fd.Body, func(n ast.Node) bool {
+				if c, ok := n.(*ast.CallExpr); ok && exprName(c.Fun) == "version.CreateDeleteRollupFile" {
+					nCreate++
+				}
+				return true
+			})
+			per = nCreate > 0 && nCreate == nGood
+			def("rollupDelShape", shape)
+			fmt.Fprintf(&sb, "\n/-- are the DeleteRollupFile records of family.rollup created inside the per-target loop, after that target's doRollupWork, for that target's files and with that target's interval (and nowhere else)? -/\n")
+			fmt.Fprintf(&sb, "def rollupDelPerInterval : Bool := %v\n", per)
 		}
 		// deleteObsoleteFiles: the directory listing must be taken BEFORE any of the three live-set collections
 		{
